@@ -108,9 +108,9 @@ pub fn check(tier: Tier) -> i32 {
     ev.set("states", json!(e.states.len()));
     ev.set("transitions", json!(e.transitions));
     // quick: every 4th selected state for the process-level parts
-    let stride = if tier == Tier::Quick { 4 } else { 8 };
+    let stride = if tier == Tier::Quick { 4 } else { 16 };
     let proc_states: Vec<&Selected> = sel.states.iter().step_by(stride).collect();
-    let seeds: usize = if tier == Tier::Quick { 12 } else { 32 };
+    let seeds: usize = if tier == Tier::Quick { 12 } else { 24 };
     ev.set("compiled_states", json!(sel.states.len()));
     ev.set("process_level_states", json!(proc_states.len()));
     ev.set("seeds", json!(seeds));
